@@ -418,7 +418,7 @@ struct VecTarget
         keyspace = (uint32_t)std::max<int64_t>(1, p.knob("keyspace", 16));
         g_cmp_style = (int)(p.knob("cmpstyle", 0) % 3);
         maxlen = (size_t)std::max<int64_t>(1, p.knob("maxlen", 48));
-        size_t const z0 = ELEM_SIZES[(size_t)p.knob("zsel", 4) % N_ELEM_SIZES];
+        size_t const z0 = ELEM_SIZES[(size_t)p.knob("zsel", 4) % N_ELEM_SIZES_ALL];
         size_t const cap0 = (size_t)p.knob("cap", 8);
         bool const heap0 = p.knob("heap", 1) != 0;
         if (!create(box[0], heap0, z0, cap0) || !create(box[1], !heap0, z0, cap0 / 2 + 1)) return;
